@@ -1095,7 +1095,10 @@ size_t ZDICT_trainFromBuffer_legacy(void* dictBuffer, size_t dictBufferCapacity,
 {
     size_t result;
     void* newBuff;
-    size_t const sBuffSize = ZDICT_totalSampleSize(samplesSizes, nbSamples);
+    size_t sBuffSize = ZDICT_totalSampleSize(samplesSizes, nbSamples);
+    /* divsufsort limitation : ZDICT_trainBuffer_legacy() only analyses what fits ZDICT_MAX_SAMPLES_SIZE.
+     * Drop the trailing samples here, so that the guard band directly follows the samples that are analysed */
+    while (sBuffSize > ZDICT_MAX_SAMPLES_SIZE) sBuffSize -= samplesSizes[--nbSamples];
     if (sBuffSize < ZDICT_MIN_SAMPLES_SIZE) return 0;   /* not enough content => no dictionary */
 
     newBuff = malloc(sBuffSize + NOISELENGTH);
